@@ -70,6 +70,9 @@ func (p *Program) LoadConsts() error {
 						if _, _, isInt := intInfo(st.Field(i).Type()); isInt {
 							byPkg[pp] = append(byPkg[pp], gv{pp, n + "->" + st.Field(i).Name(), false})
 							ptrFields[pp+"."+n+"->"+st.Field(i).Name()] = true
+						} else if isBigIntPtr(st.Field(i).Type()) {
+							byPkg[pp] = append(byPkg[pp], gv{pp, n + "->" + st.Field(i).Name(), true})
+							ptrFields[pp+"."+n+"->"+st.Field(i).Name()] = true
 						}
 					}
 				}
@@ -122,7 +125,10 @@ func (p *Program) LoadConsts() error {
 		src.WriteString("func VerifDumpConsts(emit func(name, val string)) {\n")
 		src.WriteString("\tb := func(x *verifBig.Int) string { if x == nil { return \"nil\" }; return x.String() }\n\t_ = b\n")
 		for _, g := range byPkg[pp] {
-			if g.big {
+			if g.big && ptrFields[pp+"."+g.name] {
+				parts := strings.SplitN(g.name, "->", 2)
+				fmt.Fprintf(&src, "\tif %s != nil { emit(%q, b(%s.%s)) }\n", parts[0], pp+"."+g.name, parts[0], parts[1])
+			} else if g.big {
 				fmt.Fprintf(&src, "\temit(%q, b(%s))\n", pp+"."+g.name, g.name)
 			} else if ifaceVars[pp+"."+g.name] {
 				fmt.Fprintf(&src, "\tif %s == nil { emit(%q, \"nil\") } else { emit(%q, verifFmt.Sprintf(\"nonnil:%%T\", %s)) }\n", g.name, pp+"."+g.name, pp+"."+g.name, g.name)
